@@ -118,7 +118,9 @@ Inductive bres : Type :=
 | BOk (bound : list (string * value)) (rest : option restval)
 | BErr.
 
-Definition globals : named := [("g", VInt 77)].
+(* the variables of the definition scope in the generated programs: `$g: 77; $c: 55; $d: 66;`
+   (c and d are also used as parameter names) *)
+Definition globals : named := [("g", VInt 77); ("c", VInt 55); ("d", VInt 66)].
 
 (* default.do_evaluate(argscope): parameters bound so far, then the definition scope *)
 Definition eval_default (bound : list (string * value)) (d : dexpr) : option value :=
